@@ -840,6 +840,19 @@ func (x *Exec) evalSpecCall2(sc *specCtx, e *ast.CallExpr) Value {
 		iv := arg(0).(IfaceV)
 		tv := arg(1).(TypeV)
 		return x.unbox(sc.st, iv, tv.T)
+	case "bytes2str":
+		need(1)
+		sv, ok := arg(0).(SliceV)
+		if !ok {
+			panic(engineErr("bytes2str expects a byte slice"))
+		}
+		x.sym.declareFun("bytes2str", []Sort{SInt, SInt, SInt}, SStr)
+		return Scalar{mk(SStr, "bytes2str", sv.Arr, sv.Off, sv.Len), types.Typ[types.String]}
+	case "fresh":
+		// fresh(x): the object x was allocated during this call
+		need(1)
+		ts := x.flatten(arg(0))
+		return Scalar{Term{"(> " + ts[0].S + " ALLOC0)", SBool}, boolT}
 	case "ifacekey":
 		need(1)
 		return Scalar{x.keyTerm(sc.st, arg(0)), types.Typ[types.Int]}
